@@ -23,7 +23,9 @@ import (
 // withheld votes, locks taken by some validators only, nil polkas, mixed precommits. After round 0
 // the run is continued deterministically (everything broadcast is delivered to everybody, every
 // scheduled timeout fires, repeated until quiescence) so that locks taken in round 0 meet the
-// proposals of rounds 1, 2, … and the validators decide. Quick tier: a stride through the space.
+// proposals of rounds 1, 2, … and the validators decide. Quick tier: every 211th point of both
+// spaces (6 856 histories); thorough: the whole correct-proposer space and every 5th point of the
+// Byzantine-proposer space (438 566 histories); C12_ADV_FULL=1: everything.
 //
 // Negative control: the same machinery with TWO Byzantine validators (power 2 > f = 1) must end
 // in `agreement-two-correct-validators-commit-different-values` on the unchanged code; if it does
@@ -37,8 +39,8 @@ const (
 type phased struct {
 	w         *World
 	sc        *Scenario
-	out       []In            // everything correct validators broadcast, as deliverable inputs
-	from      []int           // machine that broadcast out[i]
+	out       []In  // everything correct validators broadcast, as deliverable inputs
+	from      []int // machine that broadcast out[i]
 	delivered []map[string]bool
 	timeouts  [][]In
 	fired     []map[toKey]bool
